@@ -9,7 +9,7 @@ Oracle (implementation): operator kinds x methods x {-, E, E+M} x batch patterns
   shape/dtype; silent => residual within tolerance; direct/cg/bicgstab/broyden1 silent on well-conditioned
   systems and agreeing with the dense reference and with column-by-column / batch-by-batch solves."""
 from __future__ import annotations
-import math, warnings
+import math, os, warnings
 import torch
 from vlib import cnat, clist, cbool, cfloat, coq_nat_cases, coq_bool_cases, load_findings
 from props.c07 import fvec
@@ -152,8 +152,10 @@ def check(ctx):
         elif cd == 2:
             ctx.stat("thin_margin_skipped")
         elif cd == 0:
-            ctx.broken("correspondence:krylov", {"case": meta[i], "coq": cases[i][:1200]})
-            open("/tmp/xv_c01_fail_%d.txt" % i, "w").write(cases[i])
+            dump = os.path.join(os.path.dirname(os.path.dirname(os.path.dirname(os.path.abspath(__file__)))), "replay",
+                                "C01-krylov-case-seed%d-%d.txt" % (ctx.seed, i))
+            open(dump, "w").write(cases[i])
+            ctx.broken("correspondence:krylov", {"case": meta[i], "coq_term_file": dump, "coq": cases[i][:1200]})
     # exact ties: default method and batch shapes
     bcases, bmeta = [], []
     import xitorch.linalg.solve as S
@@ -173,6 +175,14 @@ def check(ctx):
         if list(X.shape) != want + [n, 2] or X.dtype != DT:
             ctx.fail("oracle", "solve:shape", {"A": list(A.shape), "B": list(B.shape)}, list(X.shape), want + [n, 2])
         ctx.count(("shape", ba, bb, n))
+        # the all-zero right-hand-side shortcut returns zeros of the BROADCAST shape, for every method (seeded defect C01/3)
+        zm = rng.choice(["custom_exactsolve", "cg", "bicgstab", "broyden1"])
+        with warnings.catch_warnings():
+            warnings.simplefilter("ignore")
+            X0 = solve(xt.LinearOperator.m(A.contiguous()), torch.zeros_like(B), method=zm)
+        if list(X0.shape) != want + [n, 2] or X0.dtype != DT or float(X0.abs().max()) != 0.0:
+            ctx.fail("oracle", "solve:zero-rhs:shape", {"A": list(A.shape), "B": list(B.shape), "method": zm}, list(X0.shape), want + [n, 2])
+        ctx.count(("shape-zero-rhs", ba, bb, n, zm))
     for (sa, sb) in (((1, 2, 2, 2), (1, 2, 2)), ((3, 3, 3), (3, 3)), ((2, 2, 2, 2), (2, 2, 2)), ((4, 2, 2), (2, 2))):
         A = (torch.eye(sa[-1], dtype=DT) * 2.0).expand(*sa).contiguous()
         B = torch.arange(1.0, 1 + math.prod(sb), dtype=DT).reshape(sb)
@@ -306,7 +316,12 @@ def oracle(ctx):
             if meth in ("cg", "bicgstab", "gmres"):
                 opts = dict(rtol=1e-9 if dtype != torch.float32 else 1e-5, atol=1e-12 if dtype != torch.float32 else 1e-6, max_niter=40 * n)
             if meth == "broyden1":
-                opts = dict(f_tol=1e-9 if dtype != torch.float32 else 1e-4, x_tol=1e-9 if dtype != torch.float32 else 1e-4, maxiter=400)
+                # Broyden treats all columns and batch elements as one system: its iteration count grows with the total
+                # number of unknowns (about 2N in exact arithmetic), so the budget does too (a fixed 400 was a false alarm
+                # of this oracle on a 2 x 7 x 3 complex system that converges in ~600 iterations)
+                nunk = n * nc * max(1, math.prod(full_shape))
+                opts = dict(f_tol=1e-9 if dtype != torch.float32 else 1e-4, x_tol=1e-9 if dtype != torch.float32 else 1e-4,
+                            maxiter=max(400, 60 * nunk))
             try:
                 Mop = None if Mmat is None else xt.LinearOperator.m(Mmat, is_hermitian=True)
                 X, warned = run(lambda: solve(kinds[kind](), Bm, E, Mop, method=meth, **opts))
@@ -322,7 +337,15 @@ def oracle(ctx):
             tol = {"exactsolve": 1e-9, "custom_exactsolve": 1e-9, "cg": 1e-5, "bicgstab": 1e-5, "broyden1": 1e-5, "gmres": 1e-4}[meth]
             if dtype == torch.float32:
                 tol = 2e-3
-            wellcond = True
+            # "well-conditioned": the largest condition number of the shifted column systems A - e_j M is modest
+            # (an indefinite A with a shift and M can put a generalised eigenvalue next to e_j)
+            conds = []
+            for j in range(nc):
+                sh = 0 if E is None else E.expand(*full_shape, nc)[..., j][..., None, None]
+                Mj = torch.eye(n, dtype=dtype) if Mmat is None else Mmat
+                conds.append(float(torch.linalg.cond(Ab - sh * Mj).max()))
+            wellcond = max(conds) <= 30.0
+            info["max_condition_number"] = max(conds)
             if not warned and err > tol:
                 ctx.fail("oracle", "solve:%s:%s:silent-but-wrong" % (meth, mode), info, err, "agrees with the dense reference (<= %g)" % tol)
             if warned and meth in ("exactsolve", "custom_exactsolve", "cg", "bicgstab", "broyden1") and wellcond \
